@@ -52,8 +52,11 @@ class Props:
 def run_s(draw, idx: int) -> dict[str, Any]:
     return {"seed": draw(st.integers(0, 500)), "params": draw(st.sampled_from([{"p_session": 0.5, "optional_sessions": [2, 3], "p_service": 0.6, "p_identifier": 0.5, "p_correct_payload_format": 0.8},
                                                                                  {"p_session": 1.0, "optional_sessions": [2, 3, 4], "p_service": 1.0, "p_sub_function": 0.2, "p_identifier": 1.0, "p_correct_payload_format": 1.0},
+                                                                                 # every sub-function offered: all reset types, all session changes and security levels are answered positively
+                                                                                 {"p_session": 1.0, "optional_sessions": [2, 3], "p_service": 1.0, "p_sub_function": 1.0, "p_identifier": 0.5},
                                                                                  {}])),
-            "ops": draw(st.lists(st.one_of(vecu.op, vecu.op, st.sampled_from([("reset", 0, False), ("reboot", 0, 0), ("reboot", 1, 1), ("reboot", 2, 2), ("tp", False), ("f186",), ("raw", b"\x22\xf1\x90"), ("unlock", 0, "f186", False),
+            "ops": draw(st.lists(st.one_of(vecu.op, vecu.op, st.sampled_from([("dsc_offered", 1, False), ("dsc_offered", 2, False), ("reset", 3, False), ("reset", 4, False), ("seedkey", 0, False), ("raw", b"\x22\xf1\x90")]),
+                                           st.sampled_from([("reset", 0, False), ("reset", 3, False), ("reset", 4, False), ("dsc_offered", 1, False), ("dsc_offered", 2, False), ("reboot", 0, 0), ("reboot", 1, 1), ("reboot", 2, 2), ("tp", False), ("f186",), ("raw", b"\x22\xf1\x90"), ("unlock", 0, "f186", False),
                                                                                ("raw", b"\x22\xf1\x90"), ("repeat",), ("overlap", 0), ("overlap", 1), ("overlap", 2)])), min_size=1, max_size=30)),
             "flaky": draw(st.booleans()), "name": f"ecu{idx}", "url": f"tcp-lines://192.0.2.{idx + 1}:20162",
             "props": {"software_version": draw(st.sampled_from(["1.0", "2.1"])) + f"-{idx}", "variant": idx}}
